@@ -1,7 +1,7 @@
 (* c07 driver.  stdin: one case per line ("|" separates fields, ";" ops, "," list items; a word is "." followed by
    its code points; all numbers decimal).
      L tb | content cps                 -> load_dict of a file with that text: sorted words
-     N path cps                         -> file_dict_name
+     N path cps                         -> file_dict_name ("E" = the URL names no file)
      H tb | cur | urls | ops            -> a history on the language server; per op output, then the reloaded
                                            dictionaries (user, then one per url)
      W tb | cur | ops                   -> a history on harper_wasm::Linter
@@ -179,7 +179,7 @@ let () =
       try
         match l.[0], split '|' body with
         | 'L', [tb; t] -> show_words (x_load (table tb) (ns t))
-        | 'N', [p] -> String.trim ("= " ^ line_of_text (x_name (ns p)))
+        | 'N', [p] -> (match x_name (ns p) with Some nm -> String.trim ("= " ^ line_of_text nm) | None -> "E")
         | 'H', [tb; cur; urls; ops] ->
             let urls = if String.trim urls = "" then [] else List.map url_of (split ',' urls) in
             let ops = if String.trim ops = "" then [] else split ';' ops in
